@@ -11,7 +11,7 @@ from vlib.runner import HarnessError, Mismatch, drive
 PROP = "C12"
 LEVEL = "exploration"
 WORKERS = {"quick": 4, "thorough": 16}
-BUDGET = {"quick": 80, "thorough": 800}
+BUDGET = {"quick": 120, "thorough": 800}
 TECHNIQUE = "schedule exploration: parent-owned step scheduler over forked actor processes gated at every fs call; pre-emption-bounded exhaustive + Hypothesis-drawn schedules; sequential-result / no-torn-read / visibility oracle"
 LEVEL_TEXT = (
     "Actor scripts run as separate processes whose every Python-level file-system call is gated by a parent-owned "
